@@ -57,6 +57,17 @@ register("C17", "exploration",
  "exhaustive cancel-position sweep + Hypothesis specs x schedules, invariant over the history",
  "DESIGN.md section 3 C17")
 
+register("C01", "fault_enumeration",
+ "For every explored spec (core corpus + Hypothesis-drawn DAG / loop / early-join specs) EVERY commit point of its FIFO run is taken as a crash state (the durable bytes after that commit; interval with a task in flight: external effect absent and present), the engine is restarted from it (all in-memory state dropped), locks lapse, one recovery sweep runs and the queue is drained; outcome signature, per-task execution counts (+1 only for the in-flight task), upstream data seen, queue/DLQ emptiness and no half-started residue are compared with the uninterrupted run. Thorough tier adds every pair of successive crashes (second crash at every commit of the recovery run) for 10 corpus specs. The crash index is enumerated; specs are sampled.",
+ "SQLite's atomic commit is trusted (the state after a kill between commits i and i+1 is commit i's bytes; no torn writes); restart resets the engine singletons the harness knows of; post-crash delivery is FIFO; SQLite only.",
+ "crash-point enumeration over generated workloads (commit-hook snapshots + restart), differential against the uninterrupted run",
+ "DESIGN.md section 3 C01")
+register("C13", "fault_enumeration",
+ "With the event store in the workflow database, the per-entity count equality 'completion events recorded by CompleteTask/CompleteStage == durable completions written by that handler' (and status agreement) is evaluated INSIDE the durable bytes of every commit of the FIFO run of the explored specs, after restart+recovery from sampled crash states, and after three kinds of fault injected at every completion step (transient error / plain error right after the event append, forced optimistic-lock conflict); a synchronous bus subscriber asserts at call time that no transaction is open and the event is durable, and at the end that nothing published was rolled back; sequences strictly increasing.",
+ "Event store on the same SQLite database; only completion events of the regular completion steps are asserted; synchronous bus only; the handler's own non-transient error path (which records no event) is recognised by the injected error text and exempted.",
+ "crash-point enumeration + fault injection at enumerated completion steps, invariant over each durable snapshot",
+ "DESIGN.md section 3 C13")
+
 NOT_APPLICABLE = {}
 
 def main():
